@@ -13,7 +13,12 @@ META = {
     "technique": "Lean 4 theorems over a hand-written recursive model of assign() on object trees (views with Amaranth's "
     "member offsets, dicts, lists, ArrayProxies, ints; AssignType / iterable / mapping selections); correspondence "
     "of the model with the real assign() whose statements are executed by pysim and observed bit by bit",
-    "level_text": "theorems (see evidence.theorems) are proved for every object tree and selection; the model is tied to the "
+    "level_text": "c40_sound (every statement belongs to a selected leaf pair: nothing else is assigned), c40_complete (every "
+    "selected leaf pair gets its statement), c40_once (no left operand twice), c40_same_path (same key path on both "
+    "sides up to single-member unwrapping; flow = copy right into left; shapes equal when checked), c40_select (names "
+    "by AssignType / iterable / mapping, and when that raises), c40_err (assign raises iff some selected call fails by "
+    "itself) are proved for every object tree and selection; c40_shapes_partial needs the hypothesis that the shape "
+    "check was made (false otherwise: finding F-b7-1, negation witness in Props/C40.lean); the model is tied to the "
     "code by comparing, per call, raise-or-not, the number of generated statements and the source of EVERY bit of "
     "every left-hand signal (which right-hand bit / constant / not assigned), observed by simulating the real "
     "statements with distinguishing right-hand valuations and two left-hand reset values",
@@ -450,6 +455,9 @@ def _unsign(lay):
     return lay
 
 
+_EXCLUDE = True  # False only while generating the "outside the hypotheses" stream (compared with monitor=None)
+
+
 def gen_layout(rng, depth: int, arrays: bool = True):
     r = rng.random()
     if depth <= 0 or r < 0.35:
@@ -461,11 +469,13 @@ def gen_layout(rng, depth: int, arrays: bool = True):
     else:
         lay = ["u", [[nm, gen_layout(rng, depth - 1, arrays)] for nm in rng.sample(NAMES, rng.randint(1, 3))]]
     # excluded region (proposed finding F-b7-1): a single-member chain ending in a signed member
-    return _unsign(lay) if _ends_signed(lay) else lay
+    return _unsign(lay) if _EXCLUDE and _ends_signed(lay) else lay
 
 
 def sanitize(lay):
     """keep generated layouts out of the excluded region F-b7-1 at every level"""
+    if not _EXCLUDE:
+        return lay
     t = lay[0]
     if t in "su":
         lay = [t, [[k, sanitize(l)] for k, l in lay[1]]]
@@ -506,7 +516,7 @@ def mutate_layout(rng, lay):
         j = rng.randrange(len(fs))
         fs[j] = [fs[j][0], mutate_layout(rng, fs[j][1])]
     out = [t, fs]
-    return _unsign(out) if _ends_signed(out) else out
+    return _unsign(out) if _EXCLUDE and _ends_signed(out) else out
 
 
 class _Stores:
@@ -533,7 +543,7 @@ def gen_obj(rng, lay, st: _Stores, rhs: bool, depth: int = 2):
     if depth > 0 and t == "u" and r < 0.3:
         k, l = rng.choice(lay[1])
         return ["D", [[k, gen_obj(rng, l, st, rhs, depth - 1)]]]
-    if r < 0.5 and not _has_array(lay):  # excluded region (proposed finding F-b7-2): ArrayProxy over array layouts
+    if r < 0.5 and not (_EXCLUDE and _has_array(lay)):  # excluded region (proposed finding F-b7-2): ArrayProxy over array layouts
         n = rng.randint(1, 3)
         return ["P", lay, rng.randrange(n), [st.new() for _ in range(n)]]
     return ["V", lay, st.new()]
@@ -639,6 +649,21 @@ def gen_cases(ctx: Check) -> list[Case]:
     return cases
 
 
+def outside_cases(ctx: Check) -> list[Case]:
+    """calls drawn WITHOUT the two exclusions (plus the witnesses of the excluded regions): here only the agreement
+    of model and implementation is checked, the property monitor is off"""
+    global _EXCLUDE
+    rng = ctx.rng("outside")
+    _EXCLUDE = False
+    try:
+        cases = [_mk([c for _, c in EXCLUDED_WITNESSES], "witness")]
+        for _ in range(ctx.pick(15, 300)):
+            cases.append(_mk([gen_call(rng) for _ in range(10)], "outside"))
+    finally:
+        _EXCLUDE = True
+    return cases
+
+
 def more_cases(case: Case, rng):
     for _ in range(60):
         yield _mk([gen_call(rng) for _ in range(10)], "search")
@@ -654,6 +679,11 @@ def nontrivial(case: Case, out: list[str]) -> bool:
     return False
 
 
+def _monitor_inside(case: Case, out: list[str]):
+    """the property monitor, except on the stream drawn outside the hypotheses (model/implementation agreement only)"""
+    return None if case.tag in ("outside", "witness") else monitor(case, out)
+
+
 def replay_witness(w: dict) -> Optional[str]:
     case = Case("cfg", list(w["ops"]), {"component": "assign"}, "witness")
     return monitor(case, impl(case))
@@ -667,14 +697,13 @@ def run(ctx: Check):
     ctx.proof_stage()
     ctx.replay_findings(replay_witness)
     cases = gen_cases(ctx)
-    outs_seen = {"raise": 0, "ok": 0}
-    lockstep(ctx, "assign", "C40", cases, impl, monitor, more_cases, nontrivial, procs=ctx.pick(1, None))
+    lockstep(ctx, "assign", "C40", cases + outside_cases(ctx), impl, _monitor_inside, more_cases, nontrivial,
+             procs=ctx.pick(1, None))
     # what the excluded regions do today (information for the evidence; they are proposed findings)
     for fid, call in EXCLUDED_WITNESSES:
         obs = _observe(*call)
         exp = expected(*call)
         ctx.count(f"excluded_{fid}_{'agrees' if obs.split(' #')[0] == exp else 'deviates'}")
-    del outs_seen
 
 
 def replay(ctx: Check, body: dict):
